@@ -58,8 +58,13 @@ func (w *World) recFn(r *Rec, fn string, sort string) Val {
 			return r.tok
 		case "sPrio":
 			return r.prio
-		case "mHas_id", "mHas_token", "mIsStr_id", "mIsStr_token":
+		case "mHas_id", "mHas_token", "mIsStr_id", "mIsStr_token", "mIsNum_priority":
 			return true
+		case "mHas_priority": // `json:"priority,omitempty"`
+			if p, ok := r.prio.(int64); ok {
+				return p != 0
+			}
+			return symB("(not (= " + term(r.prio) + " 0))")
 		}
 		panic(engErr("recFn " + fn))
 	}
@@ -77,6 +82,8 @@ func (w *World) recFn(r *Rec, fn string, sort string) Val {
 		return symB(n)
 	case "Int":
 		return symI(n)
+	case "Real":
+		return symR(n)
 	}
 	return symS(n)
 }
@@ -98,12 +105,24 @@ func (w *World) newSymRec(name string) *Rec {
 }
 
 func (w *World) jsonLookup(r *Rec, k string, commaOk bool) Val {
-	if k != "id" && k != "token" {
+	if k != "id" && k != "token" && k != "priority" {
 		panic(engErr("JSON map lookup of key " + k))
 	}
 	has := w.truth(w.recFn(r, "mHas_"+k, "Bool"))
 	var v Val = IfaceV{}
-	if has {
+	if has && k == "priority" {
+		// a JSON number decodes into interface{} as float64 (nearest double of the integer a payload holds)
+		if r.mk {
+			v = IfaceV{typ: types.Typ[types.Float64], v: w.convert(r.prio, types.Typ[types.Int], types.Typ[types.Float64])}
+		} else {
+			if w.recs[r.name+"_mNum_priority"] == nil {
+				num := w.recFn(r, "mNum_priority", "Real")
+				// where the struct view decodes as well, both views show the same (integral) number
+				w.s.send(fmt.Sprintf("(assert (=> (and %s (not %s)) (= %s (to_real %s))))", term(w.recFn(r, "mIsNum_priority", "Bool")), term(w.recFn(r, "sErr", "Bool")), term(num), term(w.recFn(r, "sPrio", "Int"))))
+			}
+			v = IfaceV{typ: types.Typ[types.Invalid], v: JSONField{r, k}}
+		}
+	} else if has {
 		if r.mk {
 			v = IfaceV{typ: types.Typ[types.String], v: w.recFn(r, "mStr_"+k, "String")}
 		} else {
